@@ -642,15 +642,15 @@ theorem C04_refines_get_frame (norm : Str → Str) (s : Store) (hd : CH) (n : Na
   getFrame_refines norm s hd n fuel hn
 
 /-- C04_refines, loop level, proved for create_loop (container-local form; `absLoops d cid` is exactly the loop list `abs` shows for
-    container `cid`): on success the container gains one loop — given category, given names in the given spelling and order, no
-    packet — appended; every other loop of the CIF is what it was; blocks and frames untouched.  Hypothesis beyond `Inv`:
-    `LoopNumsBelow` (loop numbers stay below next_loop_num — what tr1_unnumbered_loop guarantees; not yet part of `Inv`). -/
+    container `cid`): in every state satisfying the invariant — so in every reachable state (`C04_inv_reachable`) — on success the
+    container gains one loop — given category, given names in the given spelling and order, no packet — appended; every other
+    loop of the CIF is what it was; blocks and frames untouched. -/
 theorem C04_refines_create_loop (d d' : Db) (cid : Nat) (cat : Option Str) (names : List Name) (l : LH) (h : Inv d)
-    (hb : LoopNumsBelow d cid) (he : createLoopBody cid cat names d = .ok (d', l)) :
+    (he : createLoopBody cid cat names d = .ok (d', l)) :
     absLoops d' cid = absLoops d cid ++ [{ category := cat, names := names.map (·.orig), packets := [] }] ∧
     (∀ cid', cid' ≠ cid → absLoops d' cid' = absLoops d cid') ∧
     d'.frames = d.frames ∧ d'.blocks = d.blocks ∧ l.cid = cid ∧ l.category = cat :=
-  createLoop_refines d d' cid cat names l h hb he
+  createLoop_refines d d' cid cat names l h (fun c hc hid x hx hxc => h.loopNumsBelow c hc x hx (by rw [hxc, hid])) he
 
 /-- C04_refines, loop level, proved for add_packet (container-local form): on success the target loop gains exactly one packet at the
     end — the given values, the unknown value for the items the packet omits (`packetFor`, which is the packet of
